@@ -6,7 +6,7 @@ ROOT = os.path.dirname(os.path.dirname(os.path.abspath(__file__)))
 for d in sys.argv[1:]:
     d = d.rstrip("/")
     m = re.search(r"(C\d+)/(\d+)$", d)
-    prop, n = m.group(1), m.group(2)
+    prop, n = m.group(1), str(int(m.group(2)) + int(os.environ.get("SEED_ID_OFFSET", "0")))
     ver = json.load(open(os.path.join(d, "verify.json"))) if os.path.exists(os.path.join(d, "verify.json")) else {}
     ev = json.load(open(os.path.join(d, "eval.json"))) if os.path.exists(os.path.join(d, "eval.json")) else {}
     confirmed = ver.get("demo_without_rc") == 0 and ver.get("demo_with_rc", 0) != 0 and ver.get("suite_rc") == 0
@@ -38,7 +38,7 @@ for d in sys.argv[1:]:
         "breaks_property": prop,
         "summary": summary,
         "history": history,
-        "origin": "independent sub-agent given only the property text and a scratch worktree (nothing from /verif)",
+        "origin": "independent sub-agent given only the property text and a scratch worktree (nothing from /verif)" + (" - second round, told which sites the first round had used" if os.environ.get("SEED_ID_OFFSET") else ""),
         "needs_to_manifest": needs or "see README.md",
         "confirmed_by_me": {
             "how": "tools/seed_verify.sh in scratch worktree /tmp/seed-verify-wt: demo.rs as tests/seed_demo_*.rs without the patch (must pass), with the patch (must fail), then the full existing suite with the patch (cargo nextest, must be 691 passed)",
